@@ -1,8 +1,13 @@
+#[cfg(not(specs_verif))]
 use std::{
     fmt,
     num::NonZeroI32,
     sync::atomic::{AtomicUsize, Ordering},
 };
+#[cfg(specs_verif)]
+use std::{fmt, num::NonZeroI32, sync::atomic::Ordering};
+#[cfg(specs_verif)]
+use crate::verif::AtomicUsize;
 
 use hibitset::{AtomicBitSet, BitSet, BitSetOr};
 use shred::Read;
@@ -99,10 +104,14 @@ impl Allocator {
     /// Kills an entity atomically (will be updated when the allocator is
     /// maintained).
     pub fn kill_atomic(&self, e: Entity) -> Result<(), WrongGeneration> {
+        #[cfg(specs_verif)]
+        crate::verif::yield_point(crate::verif::Site::KillCheck);
         if !self.is_alive(e) {
             return Err(self.del_err(e));
         }
 
+        #[cfg(specs_verif)]
+        crate::verif::yield_point(crate::verif::Site::KillSet);
         self.killed.add_atomic(e.id());
 
         Ok(())
@@ -153,7 +162,11 @@ impl Allocator {
             atomic_increment(&self.max_id).expect("No entity left to allocate") as Index
         });
 
+        #[cfg(specs_verif)]
+        crate::verif::yield_point(crate::verif::Site::AllocRaise);
         self.raised.add_atomic(id);
+        #[cfg(specs_verif)]
+        crate::verif::yield_point(crate::verif::Site::AllocGen);
         let gen = self
             .generation(id)
             .map(|gen| if gen.is_alive() { gen } else { gen.raised() })
@@ -319,7 +332,28 @@ impl EntitiesRes {
     /// Returns `true` if the specified entity is alive.
     #[inline]
     pub fn is_alive(&self, e: Entity) -> bool {
+        #[cfg(specs_verif)]
+        crate::verif::yield_point(crate::verif::Site::AliveRaised);
         self.alloc.is_alive(e)
+    }
+}
+
+#[cfg(specs_verif)]
+impl EntitiesRes {
+    /// Read-only copy of the complete allocator state (verification hook).
+    pub fn verif_snapshot(&self) -> crate::verif::AllocSnapshot {
+        use hibitset::BitSetLike;
+
+        let a = &self.alloc;
+        crate::verif::AllocSnapshot {
+            generations: a.generations.iter().map(|g| g.id()).collect(),
+            alive: (&a.alive).iter().collect(),
+            raised: (&a.raised).iter().collect(),
+            killed: (&a.killed).iter().collect(),
+            cache: a.cache.cache.clone(),
+            cache_len: a.cache.len.load(Ordering::SeqCst),
+            max_id: a.max_id.load(Ordering::SeqCst),
+        }
     }
 }
 
@@ -331,10 +365,14 @@ unsafe impl<'a> LendJoin for &'a EntitiesRes {
     type Value = Self;
 
     unsafe fn open(self) -> (Self::Mask, Self::Value) {
+        #[cfg(specs_verif)]
+        crate::verif::yield_point(crate::verif::Site::JoinOpen);
         (BitSetOr(&self.alloc.alive, &self.alloc.raised), self)
     }
 
     unsafe fn get<'next>(v: &'next mut &'a EntitiesRes, id: Index) -> Entity {
+        #[cfg(specs_verif)]
+        crate::verif::yield_point(crate::verif::Site::JoinGet);
         let gen = v
             .alloc
             .generation(id)
@@ -355,10 +393,14 @@ unsafe impl<'a> Join for &'a EntitiesRes {
     type Value = Self;
 
     unsafe fn open(self) -> (Self::Mask, Self::Value) {
+        #[cfg(specs_verif)]
+        crate::verif::yield_point(crate::verif::Site::JoinOpen);
         (BitSetOr(&self.alloc.alive, &self.alloc.raised), self)
     }
 
     unsafe fn get(v: &mut &'a EntitiesRes, id: Index) -> Entity {
+        #[cfg(specs_verif)]
+        crate::verif::yield_point(crate::verif::Site::JoinGet);
         let gen = v
             .alloc
             .generation(id)
